@@ -200,11 +200,17 @@ let handle_app (toks_ : string list) : string =
           String.concat " " (List.map hex_of_nl [ e.env_rate; e.env_msg; e.env_org; e.env_originator; e.env_evt; e.env_event;
                                                   e.env_significance; e.env_sig_num; e.env_locations; e.env_issuetime;
                                                   e.env_purgetime; e.env_is_national ])))
+  | [ "readi16"; chunks ] ->
+    (* the reader model over the given read() chunks: every sample up to the first None *)
+    let cs = if chunks = "-" then [] else List.map nl_of_hex (String.split_on_char ',' chunks) in
+    let total = List.fold_left (fun a c -> a + List.length c) 0 cs in
+    let out = all_samples (nat_of_int (total + 2)) { rd_buf = []; rd_src = cs } in
+    if out = [] then "-" else String.concat "," (List.map (fun z -> string_of_int (int_of_z z)) out)
   | _ -> "DRIVER-ERROR unknown command"
 
 let handle (toks_ : string list) : string =
   match toks_ with
   | "resetshape" :: _ -> handle_c18 toks_
   | "cfgcalls" :: _ -> handle_c17 toks_
-  | "apprun" :: _ | "childenv" :: _ -> handle_app toks_
+  | "apprun" :: _ | "childenv" :: _ | "readi16" :: _ -> handle_app toks_
   | _ -> "DRIVER-ERROR unknown command"
